@@ -115,6 +115,19 @@ def check_key(ctx, curve, dom, d, named, lzhint=None):
         _SIG.update(key=(cname, d), msg=b"c09 default hash", sig=sk.sign_deterministic(b"c09 default hash"))
     except Exception:
         _SIG.update(key=None)
+    # clones of the key that come and go (copy, deepcopy, pickle) must leave the original as it was: everything below is asked of `sk` afterwards
+    import copy as _copy
+    import gc as _gc
+    import pickle as _pickle
+    for mk in (_copy.copy, _copy.deepcopy, lambda k_: _pickle.loads(_pickle.dumps(k_))):
+        try:
+            twin = mk(sk)
+            twin_vk = mk(vk)
+            del twin, twin_vk
+        except Exception as ex:
+            ctx.violation("serialisation_raises", "%s d=%d: cloning the key raised %s: %s" % (cname, d, type(ex).__name__, ex), dict(curve=cname, d=d))
+    _gc.collect()
+    ctx.count("clones_made_and_dropped_before_serialising")
     # ---------------- raw
     ctx.case("sk.raw", key="%s|%s" % (cname, lz), sample=dict(curve=cname, d=d, Q=Q, leading_zero=lz) if ctx.want("sk.raw") else None)
     try:
@@ -315,6 +328,19 @@ def run(ctx, name, kind, **kw):
                 ctx.count("keys_on_curve_registered_after_first_parse", 4)
             finally:
                 _c.curves.remove(custom)
+            # an ALIAS: exactly the named curve's domain (same field, coefficients, base point, order) registered under another OID,
+            # as standards bodies do (WAP WTLS-12 is secp224r1): its keys carry ITS OID in every DER / PEM form and load back onto it
+            alias_oid = (2, 23, 43, 1, 4, 200 + len(c.name))
+            domA = Domain(dom.p, dom.curve.a, dom.curve.b, dom.G[0], dom.G[1], n, dom.h, c.name + "_alias")
+            cfpA = lib.CurveFp(dom.p, int(c.curve.a()), int(c.curve.b()), dom.h)
+            alias = _c.Curve(domA.name, cfpA, lib.PointJacobi(cfpA, dom.G[0], dom.G[1], 1, n, generator=True), alias_oid)
+            _c.curves.append(alias)
+            try:
+                for d in (1, n - 1, rng.randrange(2, n - 1)):
+                    check_key(ctx, alias, domA, d, True)
+                ctx.count("alias_curve_keys", 3)
+            finally:
+                _c.curves.remove(alias)
     elif kind == "toy":
         ts = sigs.toy_prime_curves(7, 61)
         for t in ts[:: max(1, len(ts) // kw["ncurves"])][: kw["ncurves"]]:
